@@ -17,6 +17,16 @@ def scanExclusive (accs : List Access) : Bool :=
 /-- **C02 (per run)** the least-loaded scan runs under the exclusively held balancer-wide pick mutex -/
 theorem c02_scan_exclusive : scanExclusive GcpVerif.Generated.accesses = true := by decide +kernel
 
+/-- every access to a stream counter — the scan's reads, the increment of a placement (least-loaded or
+    round-robin), the decrement of a completion — holds the pick mutex (F39) -/
+def countersUnderPickMu (accs : List Access) : Bool :=
+  accs.all fun a => a.field != "streamsCnt" || a.w.contains "gb.pickMu"
+
+/-- **C02 (per run, F39)** the stream counters change only under the pick mutex: the scan sees one state
+    of all of them, and "scan, then count the new stream" is one atomic step with respect to completions
+    and round-robin placements too -/
+theorem c02_counters_under_pick_mutex : countersUnderPickMu GcpVerif.Generated.accesses = true := by decide +kernel
+
 /-- non-vacuity: the table does contain such reads -/
 theorem c02_scan_present : (GcpVerif.Generated.accesses.any fun a => a.field == "streamsCnt" && !a.write) = true := by
   decide +kernel
